@@ -124,4 +124,261 @@ def run(ctx, F, rule="E-PERM"):
     ok3 = kinds["levels"] and kinds["slices"] >= 2
     ctx.ob(rule + ".swap3", rule + ".swap3:set_var_order_common", ok3,
            "%s (%s): the level views, `to_pre` and `target_order` are swapped together (%s)" % (F.nice(fid), where, kinds))
+    check_blocked(ctx, F)
     return n + 1
+
+# ---- E-PERM.blocked: position-blocking protocol of the concurrent bubble sort -----------------------------------------
+CBS = "oxidd_reorder::set_var_order::concurrent_bubble_sort::{closure#"
+
+
+def check_blocked(ctx, F, rule="E-PERM.blocked"):
+    """`concurrent_bubble_sort` lets several workers swap adjacent levels at once; a worker that swaps positions i and
+    i+1 holds both in the shared `blocked` set, a queued task at j holds j and j+1.  From MIR of the worker closure,
+    every acyclic path through the body of the inner swap loop is executed symbolically (positions as offsets from
+    the loop-head value of `i`; branch decisions on one named flag are kept consistent): starting with {i, i+1} held,
+    after the inserts / removes of the path and after handing {j, j+1} to every pushed task, the worker must hold
+    exactly {i', i'+1} when it continues with i' = i +/- 1, and nothing when it fetches a new task, waits or returns.
+    A position that stays blocked (or is released while still needed) makes a neighbouring swap impossible or lets
+    two workers restructure the same level."""
+    fids = [f for f in F.mir if f.startswith(CBS) and f.count("{closure#") == 1]
+    if not ctx.anchor(rule, "worker closure of concurrent_bubble_sort", len(fids) == 1):
+        return 0
+    fid = fids[0]
+    m = F.mir[fid]
+    B = cfg.Body(m)
+    blocks = m["blocks"]
+    names = {i: l.get("n") for i, l in enumerate(m["locals"])}
+    calls = {i: t for i, t in B.calls()}
+
+    def cname(i):
+        return cfg.callee_name(calls[i]) or ""
+    swaps = [i for i in calls if cname(i).endswith("slice::<impl [T]>::swap") or cname(i).endswith("[T]>::swap")]
+    if not ctx.anchor(rule, "seq.swap(i, i + 1) in the worker loop", len(swaps) == 1):
+        return 0
+    # the inner loop head: the block of the level swap call `swap(manager, i)` that dominates seq.swap and is reachable from it
+    heads = [i for i in sorted(B.reach) if not blocks[i]["c"] and B.dominates(i, swaps[0]) and B.can_reach(swaps[0], i)
+             and len([p for p in B.reach if i in B.succ[p]]) >= 2]
+    if not ctx.anchor(rule, "head of the inner swap loop", bool(heads)):
+        return 0
+    # innermost loop around seq.swap: the candidate that every other candidate dominates
+    head = [h for h in heads if all(B.dominates(o, h) for o in heads)]
+    if not ctx.anchor(rule, "innermost loop head around seq.swap", len(head) == 1):
+        return 0
+    head = head[0]
+    i_local = [k for k, n in names.items() if n == "i"]
+    # the `i` of the inner loop is the one read in the head's region: pick the local copied into seq.swap's index
+    def base_of(op, off, depth=0):
+        return None
+    results = []
+    npaths = [0]
+
+    def run(blk, off, held, given, flags, seen, ivar):
+        """off: local -> offset relative to head-i (ints) ; held: frozenset ; ivar: current offset of `i`"""
+        if npaths[0] > 4000:
+            return
+        b = blocks[blk]
+        if b["c"]:
+            return
+        off = dict(off)
+        for s in b["s"]:
+            rv = s.get("rv") or {}
+            lhs = s.get("lhs")
+            if not isinstance(lhs, int):
+                continue
+            k = rv.get("k")
+            val = None
+            if k in ("use", "cast"):
+                o = rv["op"]
+                src = o.get("cp", o.get("mv"))
+                if isinstance(src, int) and src in off:
+                    val = off[src]
+                elif isinstance(src, int) and src in ivar_locals:
+                    val = ivar
+            elif k in ("bin", "checked") and str(rv.get("o", ""))[:3] in ("Add", "Sub"):
+                a, bb = rv.get("a"), rv.get("b")
+                la = a.get("cp", a.get("mv")) if isinstance(a, dict) else None
+                c = cfg.const_int(bb)
+                base = off.get(la) if isinstance(la, int) and la in off else (ivar if la in ivar_locals else None)
+                if base is not None and c is not None:
+                    val = base + c if str(rv["o"]).startswith("Add") else base - c
+            if lhs in ivar_locals:
+                if val is not None:
+                    ivar = val
+                else:
+                    ivar = ("new",)      # i = new_i
+            elif val is not None:
+                off[lhs] = val
+            elif lhs in off:
+                del off[lhs]
+        t = b["t"]
+        kind = t["k"]
+        if kind == "call":
+            cn = cname(blk) if blk in calls else ""
+            args = t.get("a") or []
+
+            def aoff(a):
+                l = a.get("cp", a.get("mv")) if isinstance(a, dict) else None
+                if isinstance(l, int):
+                    if l in off:
+                        return off[l]
+                    if l in ivar_locals and not isinstance(ivar, tuple):
+                        return ivar
+                return None
+            if cn.endswith("FixedBitSet::insert") and len(args) == 2:
+                k2 = aoff(args[1])
+                if k2 is None:
+                    results.append(("?", "insert of an unrecognised position", blk))
+                    return
+                held = held | {k2}
+            elif cn.endswith("FixedBitSet::remove") and len(args) == 2:
+                k2 = aoff(args[1])
+                if k2 is None:
+                    results.append(("?", "remove of an unrecognised position", blk))
+                    return
+                if k2 not in held:
+                    results.append(("bad", "releases position i%+d which it does not hold" % k2, blk))
+                    return
+                held = held - {k2}
+            elif cn.endswith("Vec::<T, A>::push") and len(args) == 2:
+                k2 = aoff(args[1])
+                if k2 is None:
+                    results.append(("?", "push of an unrecognised task", blk))
+                    return
+                if not {k2, k2 + 1} <= held:
+                    results.append(("bad", "queues a task at i%+d without holding i%+d and i%+d" % (k2, k2, k2 + 1), blk))
+                    return
+                held = held - {k2, k2 + 1}
+            elif cn.endswith("Vec::<T, A>::pop"):
+                # fetching a new task: everything must have been released
+                if isinstance(ivar, tuple) or True:
+                    if held:
+                        results.append(("bad", "fetches a new task while still holding %s" % _fmt(held), blk))
+                        return
+                    results.append(("ok", "released everything before fetching a new task", blk))
+                    npaths[0] += 1
+                    return
+            d = t.get("d")
+            if isinstance(d, int) and d in off:
+                del off[d]
+            nxt = t.get("t")
+            if nxt is None:
+                return
+            succs = [nxt]
+        elif kind == "switch":
+            d = t["d"].get("mv", t["d"].get("cp"))
+            flag = None
+            # decisions on (copies of) a named bool local stay consistent
+            src = d
+            for s in b["s"]:
+                if s.get("lhs") == d and (s.get("rv") or {}).get("k") == "use":
+                    o = s["rv"]["op"]
+                    src = o.get("cp", o.get("mv"))
+                if s.get("lhs") == d and (s.get("rv") or {}).get("k") == "un":
+                    o = s["rv"].get("op") or s["rv"].get("a") or {}
+                    src = ("not", o.get("cp", o.get("mv")))
+            neg = False
+            if isinstance(src, tuple):
+                neg, src = True, src[1]
+            if isinstance(src, int) and names.get(src):
+                flag = src
+            succs = []
+            for v, tb in t["t"]:
+                succs.append((tb, int(v) != 0))
+            succs.append((t["o"], True if all(int(v) == 0 for v, _ in t["t"]) else None))
+            outs = []
+            for tb, truth in succs:
+                if flag is not None and truth is not None:
+                    tv = (not truth) if neg else truth
+                    if flag in flags and flags[flag] != tv:
+                        continue
+                    f2 = dict(flags)
+                    f2[flag] = tv
+                else:
+                    f2 = flags
+                outs.append((tb, f2))
+            for tb, f2 in outs:
+                step(tb, off, held, given, f2, seen, ivar)
+            return
+        elif kind == "return":
+            if held:
+                results.append(("bad", "returns while still holding %s" % _fmt(held), blk))
+            else:
+                results.append(("ok", "returns holding nothing", blk))
+            npaths[0] += 1
+            return
+        elif kind in ("goto", "drop", "assert"):
+            succs = [t.get("t")]
+        else:
+            return
+        for nb in succs:
+            if nb is not None:
+                step(nb, off, held, given, flags, seen, ivar)
+
+    def step(nb, off, held, given, flags, seen, ivar):
+        if nb == head:
+            npaths[0] += 1
+            if isinstance(ivar, tuple):
+                # continues with a freshly popped task: it brings its own two positions
+                if held:
+                    results.append(("bad", "continues with a new task while still holding %s" % _fmt(held), nb))
+                else:
+                    results.append(("ok", "new task", nb))
+            elif held == frozenset({ivar, ivar + 1}):
+                results.append(("ok", "continues at i%+d holding exactly its two positions" % ivar, nb))
+            else:
+                results.append(("bad", "continues at i%+d holding %s instead of {i%+d, i%+d}" % (ivar, _fmt(held), ivar, ivar + 1), nb))
+            return
+        if nb in seen or nb not in B.reach:
+            return
+        # leaving the inner loop towards the outer loop (wait for a new task)
+        if not B.can_reach(nb, head) or (not B.dominates(head, nb)):
+            npaths[0] += 1
+            if held:
+                results.append(("bad", "leaves the swap loop while still holding %s" % _fmt(held), nb))
+            else:
+                results.append(("ok", "leaves the swap loop holding nothing", nb))
+            return
+        run(nb, off, held, given, flags, seen | {nb}, ivar)
+
+    # locals named `i` that are live in the inner loop: those read in blocks dominated by the head
+    ivar_locals = set()
+    for k in i_local:
+        for bi in B.reach:
+            if B.dominates(head, bi) and k in _mentioned(blocks[bi]):
+                ivar_locals.add(k)
+    if not ctx.anchor(rule, "position variable of the swap loop", len(ivar_locals) >= 1):
+        return 0
+    run(head, {}, frozenset({0, 1}), frozenset(), {}, frozenset({head}), 0)
+    bad = [r for r in results if r[0] == "bad"]
+    unk = [r for r in results if r[0] == "?"]
+    ok = [r for r in results if r[0] == "ok"]
+    ctx.ob(rule, rule + ":concurrent_bubble_sort", bool(ok) and not bad and not unk,
+           "%s (%s): %s" % (F.nice(fid), F.where(fid),
+                            "%d paths through the swap loop keep the blocking invariant" % len(ok) if ok and not bad and not unk else
+                            ("on %d of %d path(s) the worker %s" % (len(bad), len(results), bad[0][1]) if bad else
+                             ("path analysis incomplete: %s" % unk[0][1] if unk else "no path through the swap loop was found"))))
+    return len(results)
+
+
+def _fmt(held):
+    return "{" + ", ".join("i%+d" % k if k else "i" for k in sorted(held)) + "}"
+
+
+def _mentioned(block):
+    out = set()
+
+    def walk(x):
+        if isinstance(x, dict):
+            for k in ("cp", "mv"):
+                if k in x:
+                    v = x[k]
+                    out.add(v if isinstance(v, int) else v.get("l"))
+            if isinstance(x.get("lhs"), int):
+                out.add(x["lhs"])
+            for v in x.values():
+                walk(v)
+        elif isinstance(x, list):
+            for v in x:
+                walk(v)
+    walk(block)
+    return out
